@@ -21,13 +21,16 @@ txt = '''## 10. Kill matrix: which checks catch which seeded changes
 Every change below compiles, passes the 131 unit tests and 71 doctests unchanged, and comes with a demonstration
 (`seeded/<name>/seeded_demo.rs`) that fails with the change and passes without it. The `agent-*` ones were written
 by fresh sub-agents that were given only the text of one property and a scratch git worktree (nothing from
-`/verif`); `…b` are second-round agents asked for a *different* kind of bug. I confirmed each claim myself
+`/verif`); `…b`–`…e` are later rounds asked for a *different* kind of bug, `…f` is the sixth round (each agent also got one-line
+summaries of the earlier changes for its property so as not to repeat them). I confirmed each claim myself
 (`engine/seedtool.py verify`) before keeping it, then ran the checks against it
-(`engine/seedtool.py kill`: `git -C /repo apply`, `./check <prop> --tier quick`, `git -C /repo checkout -- .`).
+(`engine/seedtool.py kill`: `git -C /repo apply`, `./check <prop> --tier quick`, `git -C /repo checkout -- .`; sixth round:
+`engine/killwt.py`, the same checks pointed at the scratch worktree through `VERIF_REPO`, `/repo` untouched).
 "MISSED at first" marks the %d changes that a check did not catch when first run; each led to the strengthening
 named in the entry (all of those are caught now, and the unchanged tree is still silent). "NOT CAUGHT" marks the changes no check
-reaches because they lie outside the stated bounds: a `get_disjoint_mut` request of 33 or more keys (bound J ≤ 4; an experimental J = 33
-harness exhausted 12 GB in the solver) and a `Set::retain` that breaks only above 64 elements (bound N ≤ 12). `rejected-*` is a sub-agent change that violates no property as stated.  `own-*` are mine (not independent).
+reaches because they lie outside the stated bounds: an allocation that only happens for a `get_disjoint_mut` request of at least 171 present
+keys, a `get_disjoint_mut` request of 33 or more keys (two independent changes; quick bound J ≤ 3, see section 0 for the thorough tier) and a `Set::retain` that breaks only
+above 64 elements (capacities above 18 did not finish). "NOT DECIDED" marks the one change on which the check neither passes nor reports: it exits 2 (inconclusive). `rejected-*` is a sub-agent change that violates no property as stated.  `own-*` are mine (not independent).
 
 | seeded change | breaks | what was changed | what it needs to manifest | result |
 |---|---|---|---|---|
@@ -39,7 +42,9 @@ C11 ← full-map entry harnesses, C01 ← rejection harnesses, C10 ← ledger id
 tier) or the right build configuration (C06 with `std` on, the release profile in the build gate); (2) the other misses
 were dimensions the harnesses held fixed — an exact `size_hint`, element types that all had drop glue or all ignored
 formatter flags, fold compared by value, iterators consumed only through `next`, only three format specs, no fault
-injected into `From<[_;N]>`. Each is now a symbolic or an additional dimension.  A check never had to be loosened.
+injected into `From<[_;N]>`; sixth round: capacities above 12, element types that were all sized, pair types that were never
+entirely zero-sized, rendered pieces of one byte. Each is now a symbolic or an additional dimension.  One assertion was *relaxed*
+in the sixth round because it demanded more than C16 states (pull count on the overflow path, see section 0); no other check was loosened.
 ''' % (missed, '\n'.join(rows))
 p = os.path.join(V, 'DESIGN.md')
 s = open(p).read()
